@@ -132,6 +132,10 @@ def session(ctx, config, rng, it):
         else:
             s = ctx.call("pubkey_serialize", r.b(1), 33, COMP, config=config, ill=1)
             if s is not None: ctx.check(s.ret == 0, "musig_tweak_add:failed_but_output_usable", "", config)
+            # BIP-327 ApplyTweak fails without producing a new context: the session goes on with the cache exactly as the refused call
+            # left it, and that must still be the context before the call (seeded change C12-2)
+            kac = r.b(2)
+            if not check_cache(ctx, config, kac, K, "after_refused_tweak_" + cls): return
     if nonces is None: nonces = gen_nonces(kac, K)
     if nonces is None: return
     # ---- model-made co-signer whose nonces cancel aggregate components
